@@ -19,6 +19,7 @@ import (
 	"github.com/ipfs/go-graphsync/donotsendfirstblocks"
 	"github.com/ipfs/go-graphsync/ipldutil"
 	gsmsg "github.com/ipfs/go-graphsync/message"
+	"github.com/ipfs/go-graphsync/panics"
 	"github.com/ipfs/go-graphsync/requestmanager/hooks"
 	"github.com/ipfs/go-graphsync/requestmanager/types"
 )
@@ -113,6 +114,8 @@ type RequestTask struct {
 	InProgressErr        chan error
 	Empty                bool
 	ReconciledLoader     ReconciledLoader
+	// PanicCallback is told about a panic raised by a storage read or write function
+	PanicCallback panics.CallBackFn
 }
 
 func (e *Executor) traverse(rt RequestTask) error {
@@ -128,7 +131,7 @@ func (e *Executor) traverse(rt RequestTask) error {
 		lnk, linkContext := rt.Traverser.CurrentRequest()
 		// attempt to load
 		log.Debugf("will load link=%s", lnk)
-		result := rt.ReconciledLoader.BlockReadOpener(linkContext, lnk)
+		result := safeLoad(rt, func() types.AsyncLoadResult { return rt.ReconciledLoader.BlockReadOpener(linkContext, lnk) })
 		// if we've only loaded locally so far and hit a missing block
 		// initiate remote request and retry the load operation from remote
 		if _, ok := result.Err.(graphsync.RemoteMissingBlockErr); ok && !requestSent {
@@ -150,7 +153,7 @@ func (e *Executor) traverse(rt RequestTask) error {
 				return err
 			}
 			// retry the load
-			result = rt.ReconciledLoader.RetryLastLoad()
+			result = safeLoad(rt, rt.ReconciledLoader.RetryLastLoad)
 		}
 		log.Debugf("successfully loaded link=%s, nBlocksRead=%d", lnk, rt.Traverser.NBlocksTraversed())
 		// advance the traversal based on results
@@ -165,6 +168,18 @@ func (e *Executor) traverse(rt RequestTask) error {
 			return err
 		}
 	}
+}
+
+// safeLoad runs a block load, which calls the storage read and write functions supplied by the user of
+// the library on this executor's goroutine: a panic in them is recovered, passed to the panic callback
+// and becomes the result of the load, which fails the request
+func safeLoad(rt RequestTask, load func() types.AsyncLoadResult) (result types.AsyncLoadResult) {
+	defer func() {
+		if err := panics.MakeHandler(rt.PanicCallback)(recover()); err != nil {
+			result = types.AsyncLoadResult{Err: err}
+		}
+	}()
+	return load()
 }
 
 func (e *Executor) processBlockHooks(p peer.ID, response graphsync.ResponseData, block graphsync.BlockData) error {
